@@ -68,7 +68,7 @@ func c06PresentTCP(pw *probeWorld, t0 time.Time, data []byte, tok tcpTok, wantAc
 	if err != nil {
 		return c06Conn{}
 	}
-	cc.Write(data)
+	c05WriteSplit(cc, data)
 	waitFor(3*time.Second, func() bool { return readCounters().iter-c0.iter >= 1 })
 	if wantAccept {
 		waitFor(3*time.Second, func() bool { return pw.accepts()-a0 >= 1 })
